@@ -192,4 +192,136 @@ theorem beforeIncomplete_accounts (env : Env) (nb : Bool) (l : List Hit) : ∀ x
       refine ⟨m, k, hc, hcl, ?_, k, hk, Covers.refl k⟩
       rcases hr with hr | hr <;> omega
 
+/-! ### neighbour mode keeps every complete, uncontested raw hit -/
+
+theorem complete_of_covers (env : Env) {m x : Hit} (hc : Covers m x) (hx : complete env x = true) :
+    complete env m = true := by
+  simp only [complete, decide_eq_true_eq] at hx ⊢
+  simp only [Hit.length] at hx ⊢
+  have h1 := hc.lo
+  have h2 := hc.hi
+  rw [hc.prof]
+  omega
+
+theorem removeIncomplete_keeps_complete (env : Env) (l : List Hit) (m : Hit) (hm : m ∈ l)
+    (hc : complete env m = true) : m ∈ removeIncomplete env l := by
+  have hci : isComplete env m = true := by
+    simp only [isComplete, decide_eq_true_eq]
+    simp only [complete, decide_eq_true_eq] at hc
+    omega
+  have hmem : m ∈ l.filter (isComplete env) := List.mem_filter.mpr ⟨hm, hci⟩
+  simp only [removeIncomplete]
+  have : (l.filter (isComplete env)).isEmpty = false := by
+    cases h : l.filter (isComplete env) with
+    | nil => rw [h] at hmem; simp at hmem
+    | cons a t => rfl
+  simp only [this, Bool.not_false, if_true]
+  exact hmem
+
+theorem refine_neighbour_keeps (env : Env) (l : List Hit) (x : Hit) (hx : x ∈ l) (hcx : complete env x = true)
+    (hun : ∀ k ∈ l, k ≠ x → x.sc ≤ k.sc → collide env k x = false) :
+    ∃ m ∈ refine env true l, Covers m x := by
+  have hxs : x ∈ sortHits l := mem_sortHits.mpr hx
+  have hkept : x ∈ removeOverlapping env (sortHits l) := by
+    rcases removeOverlapping_justified env (sortHits_sorted l) x hxs with h | ⟨k, hk, hc, hr⟩
+    · exact h
+    · exfalso
+      have hkS : k ∈ sortHits l := (removeOverlapping_sublist env _).subset hk
+      have hkl : k ∈ l := mem_sortHits.mp hkS
+      have hne : k ≠ x := by
+        rcases hr with hr | ⟨_, i, j, hij, hi, hj⟩
+        · intro e; rw [e] at hr; omega
+        · intro e
+          subst e
+          have hnd := sortHits_nodup l
+          obtain ⟨hi', ei⟩ := List.getElem?_eq_some_iff.mp hi
+          obtain ⟨hj', ej⟩ := List.getElem?_eq_some_iff.mp hj
+          have := (List.pairwise_iff_getElem.mp hnd) i j hi' hj' hij
+          exact this (ei.trans ej.symm)
+      have hsc : x.sc ≤ k.sc := by
+        rcases hr with hr | hr <;> omega
+      rw [hun k hkl hne hsc] at hc
+      exact absurd hc (by simp)
+  obtain ⟨m, hm, hcov⟩ := mergeImmediate_covers env _ x hkept
+  refine ⟨m, ?_, hcov⟩
+  simp only [refine, beforeIncomplete, if_true]
+  exact removeIncomplete_keeps_complete env _ m hm (complete_of_covers env hcov hcx)
+
+theorem uncontestedCompleteKept_refine (env : Env) (l : List Hit) :
+    uncontestedCompleteKept env (sortHits l) (refine env true l) = true := by
+  simp only [uncontestedCompleteKept, List.all_eq_true, Bool.or_eq_true, Bool.not_eq_true', Bool.and_eq_false_iff,
+    List.any_eq_true]
+  intro x hx
+  by_cases hc : decide (env.len x.prof < 2 * x.length) = true
+  · by_cases hu : uncontested env (sortHits l) x = true
+    · right
+      have hxl := mem_sortHits.mp hx
+      obtain ⟨m, hm, hcov⟩ := refine_neighbour_keeps env l x hxl hc (by
+        intro k hk hne hsc
+        have := List.all_eq_true.mp hu k (mem_sortHits.mpr hk)
+        simp only [Bool.or_eq_true, beq_iff_eq, decide_eq_true_eq, Bool.not_eq_true'] at this
+        rcases this with (h | h) | h
+        · exact absurd h hne
+        · omega
+        · exact h)
+      exact ⟨m, hm, (covers_iff m x).mpr hcov⟩
+    · left; right; simpa using hu
+  · left; left; simpa using hc
+
+/-! ### neighbour mode merges immediate neighbours only -/
+
+theorem mergeImmFrom_infix (env : Env) : ∀ (last : Hit) (rest pre F : List Hit),
+    IsMerge env F last → Sorted (last :: rest) →
+    ∀ o ∈ mergeImmFrom env last rest, ∃ F', F' <:+: (pre ++ F ++ rest) ∧ IsMerge env F' o
+  | last, [], pre, F, hm, _ => by
+    intro o ho
+    simp [mergeImmFrom] at ho
+    subst ho
+    exact ⟨F, ⟨pre, [], by simp⟩, hm⟩
+  | last, d :: rest, pre, F, hm, hs => by
+    have hsp := List.pairwise_cons.mp hs
+    have hld : last.qs ≤ d.qs := hsp.1 d (by simp)
+    have keep : ∀ o ∈ last :: mergeImmFrom env d rest, ∃ F', F' <:+: (pre ++ F ++ d :: rest) ∧ IsMerge env F' o := by
+      intro o ho
+      rcases List.mem_cons.mp ho with rfl | ho
+      · exact ⟨F, ⟨pre, d :: rest, by simp⟩, hm⟩
+      · obtain ⟨F', hin, hm'⟩ := mergeImmFrom_infix env d rest (pre ++ F) [d] (IsMerge.single env d) hsp.2 o ho
+        exact ⟨F', by simpa using hin, hm'⟩
+    simp only [mergeImmFrom]
+    split
+    · exact keep
+    · rename_i hpe
+      have hpe' : d.prof = last.prof := by simpa using hpe
+      split
+      · rename_i hc
+        intro o ho
+        have hs' : Sorted (last.merge d :: rest) := by
+          refine List.Pairwise.cons ?_ (List.pairwise_cons.mp hsp.2).2
+          intro x hx
+          rw [merge_qs_of_le hld]
+          exact hsp.1 x (List.mem_cons_of_mem _ hx)
+        obtain ⟨F', hin, hm'⟩ := mergeImmFrom_infix env (last.merge d) rest pre (F ++ [d])
+          (hm.snoc hld hpe' (by rw [← hpe']; exact hc)) hs' o ho
+        exact ⟨F', by simpa using hin, hm'⟩
+      · exact keep
+
+/-- every hit of `_merge_immediate_neigbours` is the merge of a *contiguous* piece of its input -/
+theorem mergeImmediate_infix (env : Env) {l : List Hit} (hs : Sorted l) :
+    ∀ o ∈ mergeImmediate env l, ∃ F, F <:+: l ∧ IsMerge env F o := by
+  cases l with
+  | nil => simp [mergeImmediate, mergeImmediate?]
+  | cons a t =>
+    intro o ho
+    simp only [mergeImmediate, mergeImmediate?, Option.getD_some] at ho
+    obtain ⟨F, hin, hm⟩ := mergeImmFrom_infix env a t [] [a] (IsMerge.single env a) hs o ho
+    exact ⟨F, by simpa using hin, hm⟩
+
+/-- neighbour mode: a returned hit merges immediately neighbouring survivors of the overlap pass -/
+theorem refine_neighbour_infix (env : Env) (l : List Hit) : ∀ o ∈ refine env true l,
+    ∃ F, F <:+: removeOverlapping env (sortHits l) ∧ IsMerge env F o := by
+  intro o ho
+  simp only [refine, beforeIncomplete, if_true] at ho
+  have ho' := (removeIncomplete_sublist env _).subset ho
+  exact mergeImmediate_infix env ((sortHits_sorted l).sublist (removeOverlapping_sublist env _)) o ho'
+
 end ASV.Refine
